@@ -100,11 +100,11 @@ def n_ex_cases(tier):
 
 
 def n_rand_q(tier):
-    return 6000 if tier == "quick" else 60000
+    return 6000 if tier == "quick" else 200000
 
 
 def n_src(tier):
-    return 8000 if tier == "quick" else 100000
+    return 8000 if tier == "quick" else 300000
 
 
 def cases(tier):
@@ -192,15 +192,42 @@ def gen_case(seed, idx, tier):
     if any(w == "" for ws in fw_by_use for w in ws) or any(w == "" for w in ew):
         c.skip = "empty-word-in-string-source"
         return c
+    # value list of a multi-value argument that continues in the next source: '-M 1 2' at the end of the file (or of the
+    # environment variable), the free values '3 4' at the start of the following source - as on one command line
+    multi = None
+    if rng.random() < 0.3:
+        mv = argh.Arg("vi9", "M", "multi-values")
+        mv.multi = True
+        mv.init = []
+        first = [str(rng.randint(0, 99)) for _ in range(rng.randint(1, 3))]
+        rest = [str(rng.randint(0, 99)) for _ in range(rng.randint(1, 3))]
+        where = rng.choice(["file->env", "file->argv", "env->argv"])
+        key = [rng.choice(["-M", "--multi-values"])]
+        if where == "file->env":
+            fw_by_use.append(key + first)
+            ew = rest + ew
+        elif where == "file->argv" and not ew:
+            fw_by_use.append(key + first)
+            aw = rest + aw
+        elif where == "env->argv":
+            ew = ew + key + first
+            aw = rest + aw
+        else:
+            where = None
+        if where:
+            cfg.args.append(mv)
+            multi = (mv, [int(x) for x in first + rest], where)
     # file text
     lines = []
     i = 0
     while i < len(fw_by_use):
         n = rng.choice([1, 1, 2, 3])
+        if multi and multi[2].startswith("file") and i + n >= len(fw_by_use) and i < len(fw_by_use) - 1:
+            n = len(fw_by_use) - 1 - i      # the multi-value argument gets the last line for itself
         ws = [w for u in fw_by_use[i:i + n] for w in u]
         lines.append(" ".join(quote(w) for w in ws))
         i += n
-        if rng.random() < 0.3:
+        if rng.random() < 0.3 and not (multi and multi[2].startswith("file") and i >= len(fw_by_use)):
             lines.append(rng.choice(["", "# comment -x", "#"]))
     if rng.random() < 0.3:
         lines.insert(0, "# leading comment")
@@ -216,7 +243,9 @@ def gen_case(seed, idx, tier):
     except (argh.ModelAbstain, ValueError):
         c.skip = "model-abstains"
         return c
-    v, why = argh.valid(cfg, apart if False else allu) if not override else (True, "")
+    if multi:
+        exp[multi[0].slot] = multi[1]
+    c.meta.update(multi=multi[2] if multi else None)
     c.meta.update(cfg=cfg, exp=exp, parts=(fpart, epart, apart), override=override, last_nl=last_nl, nsrc=sum(1 for p in (fpart, epart, apart) if p))
     c.add("c07", lambda sid: argh.scenario_text(sid, "sources", cfg, aw))
     if not override:
@@ -264,6 +293,8 @@ def judge(c, results, rep):
         rep.stat("sources.override_on_argv")
     if fpart:
         rep.stat("sources.file_last_line_%s_newline" % ("with" if c.meta["last_nl"] else "without"))
+    if c.meta.get("multi"):
+        rep.stat("sources.multi_value_list_continues_%s" % c.meta["multi"])
     dumps = []
     for k, (sid, text) in enumerate(c.scenarios):
         r = results[sid]
